@@ -1,4 +1,4 @@
-import AwsVerif.Proofs.C01.Bridge
+import AwsVerif.Proofs.C01.Find
 /-!
 # C01 — byte buffers and cursors stay in bounds; failed operations change nothing
 
@@ -281,6 +281,30 @@ theorem c01_next_split_step {h : Heap} {input : Cur} {bytes : List UInt8} {ch : 
       (if s + l < input.len then .ok (true, ⟨some r, input.off + (s + l + 1), nextPiece bytes ch (s + l + 1)⟩)
        else .ok (false, Cur.zero)) :=
   ⟨nextSplit_first hr hl, nextSplit_next hr hl hsl⟩
+
+/-! ## c01_find_exact_spec -/
+
+/-- [B] `aws_byte_cursor_find_exact` on a non-NULL view of `hay` (`len ≤ SIZE_MAX/2`) and a needle `nd` with
+`1 ≤ nd.length ≤ hay.length`: either the needle occurs — entirely inside the view — at some index, and then the
+call succeeds with the view `[i, len)` for the *smallest* such `i` (so the result is never shorter than the
+needle and `hay[i .. i+nd.length) = nd`), or it occurs nowhere inside the view and the call reports
+STRING_MATCH_NOT_FOUND leaving `*first_find` alone.  Bytes before or behind the view play no role: `hay` is
+only what the view covers, and `c01_writes_in_bounds` shows no index ≥ `len` is read.  The two early exits:
+needle longer than the input → NOT_FOUND, empty needle → SHORT_BUFFER. -/
+theorem c01_find_exact_spec {h : Heap} {input toFind out : Cur} {hay nd : List UInt8} {r : Nat}
+    (hr : input.rid = some r) (hl : input.load h 0 input.len = .ok (hay.map some))
+    (hn : toFind.load h 0 toFind.len = .ok (nd.map some)) (hs : input.len ≤ HALF) :
+    (nd.length > hay.length → curFindExact h input toFind out = .ok (some .matchNotFound, out)) ∧
+    (nd.length ≤ hay.length → nd.length < 1 → curFindExact h input toFind out = .ok (some .shortBuffer, out)) ∧
+    (nd.length ≤ hay.length → 1 ≤ nd.length →
+      (∃ i, OccursAt hay nd i ∧ (∀ j, j < i → ¬ OccursAt hay nd j) ∧
+        curFindExact h input toFind out = .ok (none, ⟨some r, input.off + i, input.len - i⟩)) ∨
+      ((∀ i, ¬ OccursAt hay nd i) ∧ curFindExact h input toFind out = .ok (some .matchNotFound, out))) := by
+  have hxl : hay.length = input.len := by simpa using Cur.load_length hl
+  have hnl : nd.length = toFind.len := by simpa using Cur.load_length hn
+  refine ⟨fun hgt => ?_, fun hle hz => ?_, fun hle hpos => curFindExact_eq hr hl hn hs hle hpos⟩
+  · unfold curFindExact; rw [if_pos (by omega)]
+  · unfold curFindExact; rw [if_neg (by omega), if_pos (by omega)]
 
 /-! ## c01_trim_spec -/
 
